@@ -517,9 +517,9 @@ def open_module_plans(kind, path, level, mode, pos, interp_ok=True):
 
 
 # ----------------------------------------------------------------------------- many small functions
-def many_module(n, seed):
+def many_module(n, seed, export=True):
     """a module of n small functions h0..h{n-1}; every third one calls its predecessor (lazy chains)"""
-    out = ["mm:\tmodule", "p_ii:\tproto\ti64, i64:p, i64:n"] + [f"\texport\th{k}" for k in range(n)]
+    out = ["mm:\tmodule", "p_ii:\tproto\ti64, i64:p, i64:n"] + ([f"\texport\th{k}" for k in range(n)] if export else [])
     for k in range(n):
         out += [f"h{k}:\tfunc\ti64, i64:p, i64:n", "\tlocal\ti64:s, i64:r", f"\tadd\ts, n, {k * 3 + seed % 7}"]
         if k % 3 == 2:
@@ -670,3 +670,34 @@ def pair_plans(path, level, gens, other_level=None):
         "B_A": head + ["GEN B"] + ga + cb + ca + ["GEN B", "GEN A"] + cb + ca + ["CHECKTEXT end"],
         "interp": head + [l.replace("CALL", "INTERP") for l in ca + cb] + ["CHECKTEXT end"],
     }
+
+
+# ----------------------------------------------------------------------------- loading the same module again
+def reload_plans(n, path, level, ifaces, rng):
+    """a module WITHOUT exports may be loaded again: MIR_load_module puts every function's thunk back to the
+    undefined-interface stub and the next MIR_link / MIR_gen has to make it lead to the existing code again.
+    ifaces: first link, then one interface per reload"""
+    head = [f"OPT {level}", f"SCAN {path}"]
+    fs = list(range(n))
+    acts = [f"LOADLINK {ifaces[0]}", "SNAP s0"]
+    for k in fs:
+        c = rng.below(3)
+        if c == 0:
+            acts += [f"CALL {k} h{k} {k % 5}"]
+        elif c == 1:
+            acts += [f"GEN h{k}", f"CALL {k} h{k} {k % 5}"]
+    for it in ifaces[1:]:
+        acts += [f"RELOADLINK {it}"]
+        for k in fs:
+            c = rng.below(4)
+            if c == 0:
+                acts += [f"GEN h{k}", f"GEN h{k}", f"CALL {k} h{k} {k % 5}"]
+            elif c == 1:
+                acts += [f"CALL {k} h{k} {k % 5}", f"GEN h{k}", f"CALL {k} h{k} {k % 5}"]
+            elif c == 2:
+                acts += [f"GEN h{k}", f"CALL {k} h{k} {k % 5}", f"INTERP {k} h{k} {k % 5}"]
+        acts += ["CHECKTEXT r"]
+    acts += [f"GEN h{k}" for k in fs] + [f"CALL {k} h{k} {k % 5}" for k in fs] + ["CHECKTEXT end"]
+    canon = head + ["LOADLINK gen", "SNAP s0"] + [f"CALL {k} h{k} {k % 5}" for k in fs] + ["CHECKTEXT end"]
+    interp = head + ["LOADLINK interp", "SNAP s0"] + [f"INTERP {k} h{k} {k % 5}" for k in fs] + ["CHECKTEXT end"]
+    return head + acts, canon, interp
